@@ -223,6 +223,75 @@ def build(tier, rng):
     k1, k2 = TOTP(new=True).key, TOTP(new=True).key
     g.check(k1 != k2, "totp:new-distinct", "two new keys equal", {})
     groups.append(g)
+
+    # ---------------- libpass salts --------------------------------------------------------------
+    g = Group("libpass-salts", "libpass._salt.generate_salt / generate_salt_by_entropy",
+              "alphabets of 2..94 symbols x entropy 1..320 bits (quick: step 3): the length is the SMALLEST L with symbols^L >= 2^bits (exact integer test), "
+              "the value has that length over that alphabet; generate_salt with the library's secrets.choice recorded: one draw per position over the given alphabet, "
+              "output = the draws in order; libpass PBKDF2 / SHA-crypt hashers: parsed salt length and alphabet for salt_entropy_bits in {64, 96, 120, 128, 192, 256}")
+    try:
+        import libpass._salt as LS
+        from libpass.hashers.pbkdf2 import PBKDF2SHA256Handler as PBKDF2SHA256Hasher, PBKDF2SHA512Handler as PBKDF2SHA512Hasher
+        from libpass.hashers.sha_crypt import SHA256Hasher, SHA512Hasher
+
+        base = "".join(chr(c) for c in range(33, 127))
+        step = 1 if tier == "thorough" else 3
+        for n in list(range(2, 95, 1 if tier == "thorough" else 5)) + [62, 64, 94]:
+            chars = base[:n]
+            for bits in range(1, 321, step):
+                g.case((n, bits))
+                v = LS.generate_salt_by_entropy(bits, chars)
+                L = len(v)
+                ok = n ** L >= 2 ** bits and (L == 0 or n ** (L - 1) < 2 ** bits)
+                g.check(ok, "libpass-salt:entropy-length", "salt length is not the smallest one carrying the requested entropy", {"symbols": n, "bits": bits, "length": L})
+                g.check(set(v) <= set(chars), "libpass-salt:alphabet", "salt symbol outside the given alphabet", {"symbols": n, "bits": bits, "salt": v})
+        draws = []
+        real = LS.secrets.choice
+
+        class _Rec:
+            @staticmethod
+            def choice(seq):
+                c = real(seq)
+                draws.append((seq, c))
+                return c
+
+            def __getattr__(self, name):
+                return getattr(__import__("secrets"), name)
+        orig = LS.secrets
+        LS.secrets = _Rec()
+        try:
+            for n in (2, 10, 62, 94):
+                for length in (0, 1, 2, 16, 22, 64):
+                    draws.clear()
+                    v = LS.generate_salt(length, base[:n])
+                    g.case(("draws", n, length))
+                    g.check(len(v) == length and len(draws) == length and all(seq == base[:n] for seq, _ in draws) and "".join(c for _, c in draws) == v,
+                            "libpass-salt:draws", "generate_salt is not one uniform draw over the alphabet per position, in order", {"symbols": n, "length": length, "salt": v, "draws": len(draws)})
+        finally:
+            LS.secrets = orig
+        import re as _re
+        for cls in (PBKDF2SHA256Hasher, PBKDF2SHA512Hasher):
+            for bits in (64, 96, 120, 128, 192, 256):
+                g.case((cls.__name__, bits))
+                h = cls(rounds=1000, salt_entropy_bits=bits)
+                seen = set()
+                for _ in range(4):
+                    hs = h.hash("pw")
+                    salt_field = hs.split("$")[3]
+                    from passlib.utils.binary import ab64_decode
+                    raw = ab64_decode(salt_field)
+                    seen.add(raw)
+                    L = len(raw)
+                    g.check(62 ** L >= 2 ** bits and 62 ** (L - 1) < 2 ** bits and _re.fullmatch(rb"[A-Za-z0-9]*", raw) is not None, "libpass-salt:hasher", "libpass PBKDF2 salt does not carry the configured entropy over [A-Za-z0-9]", {"hasher": cls.__name__, "bits": bits, "salt": repr(raw)})
+                g.check(len(seen) == 4, "libpass-salt:fresh", "libpass hasher repeats a salt", {"hasher": cls.__name__, "bits": bits})
+        for cls in (SHA256Hasher, SHA512Hasher):
+            g.case(cls.__name__)
+            salts = {cls(rounds=1000).hash("pw").split("$")[3] for _ in range(4)}
+            g.check(len(salts) == 4 and all(len(x) == 16 and _re.fullmatch(r"[./0-9A-Za-z]{16}", x) for x in salts), "libpass-salt:sha-crypt", "libpass SHA-crypt salt is not 16 fresh characters of the crypt alphabet", {"hasher": cls.__name__, "salts": sorted(salts)})
+    except Exception as err:  # noqa: BLE001
+        import traceback
+        skipped.append(f"libpass-salts: {type(err).__name__}: {err} {traceback.format_exc()[-300:]}"[:500])
+    groups.append(g)
     return groups, skipped, {}
 
 
